@@ -40,7 +40,7 @@ func (l1 jsonList) Equals(n JsonNode, metadata ...Metadata) bool {
 }
 
 func (l jsonList) hashCode(metadata []Metadata) [8]byte {
-	b := make([]byte, 0, len(l)*8)
+	b := []byte{0xF5, 0x18, 0x0A, 0x71, 0xA4, 0xC4, 0x03, 0xF3} // random bytes
 	for _, n := range l {
 		h := n.hashCode(metadata)
 		b = append(b, h[:]...)
